@@ -478,37 +478,64 @@ def check_interleavings(ctx, seed_mul=13, offset=4, nl=None, heavy=True):
 
 
 def check_batch_independence(ctx, offset=5, nl=None):
-    """one ray alone / in random subsets / in reversed order vs in the full batch"""
+    """one ray alone / in random subsets / in reversed order vs in the full batch, through trace_generic AND trace,
+    with polarization off and on (H, V, unpolarized ...; uncoated, SimpleCoating, FresnelCoating), batches that mix
+    special rays (axial / chief / marginal / outside the pupil) with skew rays; compared: surface records, the
+    returned bundle incl. intensity, the polarization matrix rays.p.  Plus the same clause on the per-ray
+    polarization code itself (PolarizedRays.update / get_output_field / update_intensity)."""
     c13 = _lib()
     rng = random.Random(ctx.seed * 13 + offset)
     nl = nl or ctx.n(18, 200)
     res = {'name': 'ray-independent-of-companions', 'n': 0, 'nontrivial': 0, 'samples': [], 'disagreements': [],
-           'histogram': {'closed_form_lenses': 0, 'newton_lenses': 0, 'worst_deviation_newton': 0.0, 'raised': 0}}
-    specs = _specs(ctx, rng, nl, ['plain', 'newton', 'any', 'coated', 'newton', 'polarized'])
+           'histogram': {'input_classes': ['mixed special+skew batches through trace_generic and trace',
+                                           'polarization on: batch-vs-alone of intensity and rays.p'],
+                         'closed_form_lenses': 0, 'newton_lenses': 0, 'worst_deviation_newton': 0.0, 'raised': 0,
+                         'polarized_lenses': {}, 'modes': {'trace_generic': 0, 'trace': 0},
+                         'unit_sites': c13.UNIT_SITES, 'unit_comparisons': 0}}
+    h = res['histogram']
+    # the clause on the per-ray polarization code itself
+    uv, ucmp = c13.polarized_unit_independence(rng, ctx.n(40, 400))
+    h['unit_comparisons'] = ucmp
+    res['n'] += ucmp
+    res['nontrivial'] += ucmp
+    for x in uv[:1]:
+        res['disagreements'].append(dict({'kind': 'ray-depends-on-companions', 'level': x['site']}, **x,
+                                         violates_property=True))
+    specs = _specs(ctx, rng, nl, ['polarized', 'plain', 'polarized', 'newton', 'coated', 'polarized', 'any', 'newton'])
     for spec in specs:
         o = c13.build(spec)
-        Hx, Hy, Px, Py = c13.gen_rays(rng, spec, ctx.n(8, 12))
         w = spec['wavelengths'][0][0]
-        try:
-            viol, worst, n = c13.batch_independence(o, Hx, Hy, Px, Py, w, rng)
-        except Exception:   # noqa
-            res['histogram']['raised'] += 1
-            continue
-        res['n'] += n
-        res['nontrivial'] += n
+        pol = spec.get('c13') or {}
+        if pol.get('polarization'):
+            key = f"{pol['polarization']}/{pol.get('coatings')}"
+            h['polarized_lenses'][key] = h['polarized_lenses'].get(key, 0) + 1
         if c13.has_newton(o):
-            res['histogram']['newton_lenses'] += 1
-            res['histogram']['worst_deviation_newton'] = max(res['histogram']['worst_deviation_newton'], worst)
+            h['newton_lenses'] += 1
         else:
-            res['histogram']['closed_form_lenses'] += 1
-        for x in viol[:1]:
-            res['disagreements'].append({'kind': 'ray-depends-on-companions', 'spec': spec,
-                                         'rays': [Hx, Hy, Px, Py], 'w': w, 'ray': x['ray'], 'group': x['group'],
-                                         'why': x['why'], 'deviation': x.get('deviation'), 'tol': x.get('tol'),
-                                         'violates_property': True})
-    res['samples'].append({'comparison': 'records of ray j in the full batch vs alone / subset / reversed',
-                           'closed-form lenses': 'bit identical', 'Newton lenses': 'within 1e3 * tol',
-                           'worst_newton_deviation': res['histogram']['worst_deviation_newton']})
+            h['closed_form_lenses'] += 1
+        for mode in ('trace_generic', 'trace'):
+            Hx, Hy, Px, Py = c13.gen_rays(rng, spec, ctx.n(8, 12), same_field=(mode == 'trace'))
+            try:
+                viol, worst, n = c13.batch_independence(o, Hx, Hy, Px, Py, w, rng, subsets=2, mode=mode)
+            except Exception:   # noqa
+                h['raised'] += 1
+                continue
+            h['modes'][mode] += 1
+            res['n'] += n
+            res['nontrivial'] += n
+            if c13.has_newton(o):
+                h['worst_deviation_newton'] = max(h['worst_deviation_newton'], worst)
+            for x in viol[:1]:
+                res['disagreements'].append({'kind': 'ray-depends-on-companions', 'call': 'Optic.' + mode,
+                                             'part': x.get('part'), 'ray': x['ray'], 'group': x['group'],
+                                             'why': x['why'], 'deviation': x.get('deviation'), 'tol': x.get('tol'),
+                                             'polarization': pol or None, 'rays': [Hx, Hy, Px, Py], 'w': w,
+                                             'spec': spec, 'violates_property': True})
+    res['samples'].append({'comparison': 'records / returned bundle / rays.p of ray j in the full batch vs alone / '
+                                         'subset / reversed', 'closed-form lenses': 'bit identical',
+                           'Newton lenses': 'within 1e3 * tol',
+                           'worst_newton_deviation': h['worst_deviation_newton'],
+                           'polarized_lenses': h['polarized_lenses']})
     return res
 
 
@@ -525,7 +552,8 @@ def check_method_histories(ctx, offset=6, nl=None):
            'samples': [], 'disagreements': [],
            'histogram': {'input_class': 'method-level histories on one analysis object', 'lenses': 0, 'objects': 0,
                          'classes': {}, 'methods_per_class': {}, 'queries': 0, 'raised': 0}}
-    specs = _specs(ctx, rng, nl, ['coated', 'any', 'vignetting', 'plain', 'polarized', 'newton'])
+    specs = [dict(CLIP_SPEC, variant='regression: clipping aperture (view() masks, fixes eb1bc3c f4c405d)')] + \
+        _specs(ctx, rng, nl, ['coated', 'any', 'vignetting', 'plain', 'polarized', 'newton'])
     seen = set()
     for spec in specs:
         viol, st = c13.method_histories(rng, spec, c13.build)
